@@ -372,6 +372,8 @@ func verifRunC20(c *verifsim.Ctx) {
 		c.Add(p, 0) // so that a probe that is never reached shows up as 0
 	}
 	w := &verifC20{c: c, key: verifKeys()["store"]}
+	stage := "signing"
+	defer verifRecover(c, &stage)
 	faults := c.Draw("faults", 4) != 0
 	n := 1 + c.Draw("n-assertions", 4)
 	var sent []asserts.Assertion
@@ -383,6 +385,7 @@ func verifRunC20(c *verifsim.Ctx) {
 		c.Logf("signed %s", label)
 	}
 
+	stage = "decoding a valid encoding (asserts.Decode)"
 	// single encodings
 	for i, a := range sent {
 		enc := asserts.Encode(a)
@@ -397,6 +400,7 @@ func verifRunC20(c *verifsim.Ctx) {
 	}
 	c.Count("single-round-trips")
 
+	stage = "encoding the stream"
 	// the stream
 	var buf bytes.Buffer
 	enc := asserts.NewEncoder(&buf)
@@ -560,6 +564,7 @@ func verifRunC20(c *verifsim.Ctx) {
 	rd.data = data
 	rd.maxCall = 4*len(data) + 2000
 
+	stage = "decoding damaged input (asserts.Decode), scenario " + scenario
 	// arbitrary or damaged bytes also go to the single-assertion decoder
 	if scenario == "bit-flip" || scenario == "garbage" || scenario == "arbitrary" || scenario == "truncate" {
 		one := data
@@ -584,6 +589,7 @@ func verifRunC20(c *verifsim.Ctx) {
 	}
 
 	if hostileAt >= 0 {
+		stage = "decoding a tampered assertion (asserts.Decode): " + hostileHow
 		lo := starts[hostileAt]
 		hi := len(data) - (len(stream) - ends[hostileAt])
 		if x, err := asserts.Decode(data[lo:hi]); err == nil {
@@ -609,6 +615,10 @@ func verifRunC20(c *verifsim.Ctx) {
 		}
 	}
 
+	stage = "reading the stream (asserts.Decoder), scenario " + scenario
+	if hostileHow != "" {
+		stage += ": " + hostileHow
+	}
 	dec := mkDecoder(src)
 	var got []asserts.Assertion
 	var derr error
